@@ -49,6 +49,8 @@ def gen_cases(tier, seed):
         rng = gen.rng_for("C17a", seed, i)
         nodes, edges = gen.dag_any(rng, 12)
         wf = {e: rng.choice([0, 1, 1, 2, 5, 1 << 20]) for e in edges}
+        if rng.random() < 0.2:
+            wf = {e: rng.choice([0, 0.5, 0.25, 1.5, 2, 0.75]) for e in edges}        # weights need not be integers (dyadic, so sums are exact)
         if rng.random() < 0.3:
             for e in list(wf):
                 if rng.random() < 0.3:
@@ -69,6 +71,7 @@ def gen_cases(tier, seed):
             cases.append({"kind": "hist", "spec": gen.spec(nodes, edges, eattr={e: {"flow": (hash(e) % 7)} for e in edges}), "rs": "x", "nq": 0, "full": True})
         for nodes, edges in small_scope_graphs(4, False):
             cases.append({"kind": "hist", "spec": gen.spec(nodes, edges, eattr={e: {"flow": (hash(e) % 5)} for e in edges}), "rs": "x", "nq": 0, "full": True})
+    cases.append({"kind": "peel", "spec": gen.spec(["p", "q"], []), "planted": 0})        # a DAG without edges: the empty flow peels into nothing
     # corpus
     for nodes, edges in [(["a", "b"], [("a", "b")]), (["a", "b", "c", "d", "e"], [("a", "b"), ("c", "d"), ("d", "e")]),
                          (["s", "a", "t"], [("s", "a"), ("a", "a"), ("a", "t")])]:
